@@ -4,31 +4,44 @@ PROP = {'drive': ['T2'], 'harness_files': ['area_t2.go'], 'modules': ['SfntV.Pro
  'required_theorems': ['C04_number_partial',
                        'C04_number_bigstep_fails',
                        'C04_operand_decodes',
-                       'C04_edge_sound_partial',
+                       'C04_edge_sound',
                        'C04_edge_bytes',
-                       'C04_path_sound_partial'],
+                       'C04_path_sound',
+                       'C04_no_accumulation',
+                       'C04_glyph_sound_partial',
+                       'C04_width'],
  'areas': [('t2enc', 3000, 100000)],
  'rule': 'distinct case lines (a float as n/2^k; a glyph: commands at scale 2^-20, stems, masks, width, '
          'default/nominal width; per glyph four lines: encodeArgs, edge proposals at every node, assembly of the '
          'Go-chosen path, specification round trip of the emitted bytes); non-trivial = number cases and glyphs '
          'with more than two commands',
- 'partial': ['C04_number_partial: hypothesis |x| <= 32767 forced by the code (C04_number_bigstep_fails is the witness '
-             'for defect #20, known finding C04-bigstep).',
-             'C04_edge_sound_partial / C04_path_sound_partial cover the edges for rlineto, hlineto, vlineto, '
-             'rlinecurve, rrcurveto, rcurveline, hhcurveto, vvcurveto, hflex, hflex1; the edges for hvcurveto and '
-             'vhcurveto are modelled (V stream t2.edges, exact) but their soundness is NOT proved yet '
-             '(C04_edge_sound_full, C04_path_sound_full are stated as definitions). For them the property rests on '
-             'the D stream t2.rt.',
-             'The path theorems are stated with the specification interpreter\'s step function (relation Reaches: '
-             'finitely many successful steps, each consuming code); the wrapper that turns this into a statement '
-             'about Spec.T2.interp of a whole charstring (moveto, masks, header, endchar around the sub-paths) is not '
-             'proved: C04_header (width prefix, stem chunks of 24/23 pairs, hstemhm/vstemhm, implicit vstem), '
-             'C04_no_accumulation, C04_width, C04_endchar are NOT proved. Header assembly, encodeArgs and encodePaths '
-             'are modelled and tied by exact V streams (t2.encargs, t2.asm) and checked end to end by t2.rt.',
+ 'partial': ['C04_number_partial, C04_no_accumulation, C04_glyph_sound_partial: hypothesis |step| <= 32767 (every '
+             'encoded delta, and width - nominalWidth) forced by the code (C04_number_bigstep_fails is the witness for '
+             'defect #20, known finding C04-bigstep).',
+             'C04_edge_sound and C04_path_sound hold for ALL twelve operator forms (rlineto, hlineto, vlineto, '
+             'rlinecurve, rrcurveto, rcurveline, hhcurveto, vvcurveto, hvcurveto, vhcurveto, hflex, hflex1) and every '
+             'path of proposed edges.',
+             'C04_glyph_sound_partial (Spec.T2.interp on the bytes of encodeCharString returns the drawn glyph, for '
+             'every choice of edge paths, program ends with endchar, no error hence stack <= 48 and legal operand '
+             'counts) covers glyphs WITHOUT stem hints and masks. Forced hypotheses besides the step bound: drawing '
+             'only after a moveto (cmdsOK) - the encoder happily emits a lineto-first glyph, which the decoder rejects '
+             '("lineTo before moveTo"); this is input validation the encoder does not do, observed on the real code, '
+             'not counted as a finding because the property quantifies over glyph descriptions that start sub-paths '
+             'with a move.',
+             'NOT proved: C04_header (stem chunks of 24/23 pairs, hstemhm/vstemhm, implicit vstem before a leading '
+             'mask), masks inside the path section, i.e. C04_glyph_sound_full (stated as a definition). Header '
+             'assembly and masks are modelled and tied by the exact V stream t2.asm and checked end to end by t2.rt '
+             '(header sweep: {0,1,23,24,25,48}^2 stem pairs x width x mask-first on every run). Further hypotheses '
+             'the full theorem would need, read off the decoder: each mask has exactly ceil(nStems/8) bytes and there '
+             'is at least one stem when a mask is present; stem lists have even length (encoder checks this one).',
+             'C04_no_accumulation is stated per coordinate for an arbitrary decoder position (any history); the '
+             'list-level corollary over drawCmds is not spelled out. Stem deltas are NOT covered by it: they are '
+             'encoded against the unrounded previous edge, so rounding errors can add up along a stem chunk for '
+             'stems finer than 16.16 (not generated; stems in the streams are 16.16-exact).',
              'Glyphs whose coordinates use the whole +-32000 box (steps up to 64000) are run as diagnostics (kind G): '
              'about a quarter of them read back wrong (finding C04-bigstep, #20).',
-             '#19 (fractional default/nominal width truncated in the Private DICT) is outside encodeCharString; it '
-             'belongs to C13 and is not exercised here (dw/nw are integers in the generated cases).'],
+             '#19 (default/nominal width in the Private DICT; selectWidths repaired in 7574c51) is outside '
+             'encodeCharString and belongs to C13; dw/nw are inputs here.'],
  'modelled_not_verified': ['float64 arithmetic of encodeNumber: modelled exactly on dyadic rationals n/2^k '
                            '(float subtraction x16-x and scaling by 65536 are exact for |x| < 2^36); the amd64 '
                            'result of an out-of-range float->int32/int16 conversion (0x80000000, low 16 bits) is '
@@ -44,10 +57,11 @@ LEVEL = {'text': 'Proof + correspondence: encodeNumber proved correct against th
          '(all twelve operator forms with the maxStack bound), encodePaths and the header assembly are modelled in '
          'Lean and agree exactly with the Go code on every generated glyph (edges at every node, not only the chosen '
          'path). Proved for all inputs: every proposed rlineto/hlineto/vlineto/rlinecurve/rrcurveto/rcurveline/'
-         'hhcurveto/vvcurveto/hflex/hflex1 edge is sound (<= 48 operands, legal count, draws exactly the covered commands under the '
+         'hhcurveto/vvcurveto/hvcurveto/vhcurveto/hflex/hflex1 edge is sound (<= 48 operands, legal count, draws exactly the covered commands under the '
          'specification interpreter), and ANY path of such edges compiles to bytes the specification interpreter '
-         'executes as exactly the sub-path (the shortest-path routine is an untrusted oracle). Not proved: the '
-         'hvcurveto/vhcurveto forms, header and whole-charstring wrapper; for those the property is evaluated on the '
+         'executes as exactly the sub-path (the shortest-path routine is an untrusted oracle). Proved as well: the whole charstring of a glyph without hints is '
+         'interpreted back to the drawn glyph (interp level, endchar, width). Not proved: header with stems and '
+         'masks; for those the property is evaluated on the '
          'real encoder output with the Lean specification interpreter (D stream), with targeted generator families '
          'around every applicability condition of every operator form.',
  'note': 'Trusted: Lean kernel + 3 standard axioms; hand-written model tied by exact sampled correspondence; TN5177 as '
